@@ -2806,8 +2806,9 @@ fn grouped_all_with<T: Clone + Into<Obj>>(
 }
 
 fn windowed<T: Clone>(mut it: impl Iterator<Item = NRes<T>>, n: usize) -> NRes<Vec<Vec<T>>> {
+    // no up-front reservation: n is user-supplied and may exceed anything allocatable; the deque
+    // never grows past the number of elements actually available
     let mut window = VecDeque::new();
-    window.reserve_exact(n);
     for _ in 0..n {
         match it.next() {
             Some(obj) => window.push_back(obj?),
